@@ -77,6 +77,10 @@ def translate(repo=None):
     dv, drows = delegbody.emit(repo)
     ch1 = C.write_if_changed(os.path.join(C.GEN, "DelegSrc.v"), dv) or ch1
     data["deleg_src"] = drows
+    import storagebody
+    stv, strows = storagebody.emit(repo)
+    ch1 = C.write_if_changed(os.path.join(C.GEN, "StorageSrc.v"), stv) or ch1
+    data["storage_src"] = [list(r) for r in strows]
     cdata = uom2coq.tables_json(ctab)
     cdata["reading_stats"] = crstats
     data["custom"] = cdata
